@@ -2,6 +2,7 @@ import ScriggoV.Drv.Util
 import ScriggoV.Model.Builtins
 import ScriggoV.Spec.Percent
 import ScriggoV.Model.BuiltinsText
+import ScriggoV.Gen.ReflectGuards
 namespace ScriggoV.Drv.C25
 open ScriggoV ScriggoV.Builtins
 
@@ -50,7 +51,50 @@ def unicodeOf (tbl : List (Nat × Nat × Nat × Nat)) : UnicodeFns where
   toUpper r := (lookupRune tbl r).2.1
   toLower r := (lookupRune tbl r).2.2
 
+/-- `Spec/Reflect.lean` on one operation, for the validation against the real package reflect.
+The operand is the argument itself (`valueOf`, `typeOf`, `swapper`, `sortSlice`), its
+`reflect.ValueOf` (`v…`), its `reflect.TypeOf` (`t…`, `new`), and for `elemset` the sequence
+`reflect.ValueOf(a).Elem().Set(reflect.New(reflect.TypeOf(a).Elem()).Elem())`. -/
+def reflectOp (name : String) (a : Reflect.Arg) : Option Bool :=
+  let rs : Reflect.Regs := [(0, .iface a)]
+  let run (ops : List (Nat × Reflect.Op)) : Bool :=
+    (ops.foldl (fun (st : Option Reflect.Regs) (e : Nat × Reflect.Op) => st.bind fun rs =>
+      (e.2.eval rs).map fun o => (e.1, o) :: rs) (some rs)).isSome
+  let onV (o : Reflect.Op) := some (run [(1, .valueOf 0), (2, o)])
+  let onT (o : Reflect.Op) := some (run [(1, .typeOf 0), (2, o)])
+  match name with
+  | "valueOf" => some (run [(1, .valueOf 0)])
+  | "typeOf" => some (run [(1, .typeOf 0)])
+  | "swapper" => some (run [(1, .swapper 0)])
+  | "sortSlice" => some (run [(1, .sortSlice 0)])
+  | "vType" => onV (.vType 1)
+  | "vKind" => onV (.vKind 1)
+  | "vString" => onV (.vString 1)
+  | "vElem" => onV (.vElem 1)
+  | "vInterface" => onV (.vInterface 1)
+  | "vIsZero" => onV (.vIsZero 1)
+  | "vIsNil" => onV (.vIsNil 1)
+  | "vLen" => onV (.vLen 1)
+  | "vIndex" => onV (.vIndex 1)
+  | "tKind" => onT (.tKind 1)
+  | "tString" => onT (.tString 1)
+  | "tElem" => onT (.tElem 1)
+  | "new" => onT (.new 1)
+  | "elemset" => some (run [(1, .valueOf 0), (2, .vElem 1), (3, .typeOf 0), (4, .tElem 3), (5, .new 4), (6, .vElem 5), (7, .vSet 2 6)])
+  | _ => none
+
 def handle : List String → Option String
+  | ["guards", fn, arg] => do
+    let a ← Reflect.Arg.ofName arg
+    let prog ← Gen.ReflectGuards.progs.lookup fn
+    pure ("ok " ++ "|".intercalate (Reflect.outcomeNames prog a))
+  | ["reflectop", name, arg] => do
+    let a ← Reflect.Arg.ofName arg
+    let ok ← reflectOp name a
+    pure (if ok then "ok" else "panic")
+  | ["guardfuncs"] => some ("ok " ++ ",".intercalate (Gen.ReflectGuards.progs.map (·.1)))
+  | ["anyfuncs"] => some ("ok " ++ ",".intercalate Gen.ReflectGuards.anyParamFuncs)
+  | ["errfuncs"] => some ("ok " ++ ",".intercalate Gen.ReflectGuards.errorResultFuncs)
   | ["capitalize", h, t] => do
     let s ← fromHex h
     let tbl ← parseTable t
